@@ -346,7 +346,26 @@ def E1_lmpdat_writer_reader(repo, clause):
             none_test = any(isinstance(x, ast.Constant) and x.value is None for x in ast.walk(t))
             truthy = (not none_test) and any(isinstance(x, ast.Call) and call_name(x) in ("all", "any") for x in ast.walk(t)) or \
                 (isinstance(t, ast.Name) and t.id == lab)
-            obs.append(Ob("E1", clause, r, fb[0], none_test,
+            # decided on representative label lists: the fallback must run exactly when SOME label is missing (None); '' is a label
+            from .common import eval_small, Undecidable
+            sem_l = None
+            try:
+                badl = []
+                for labs in (("C", "H"), ("C", None), (None, "H"), (None, None), ("", "H")):
+                    taken = all(bool(eval_small(t_, {lab: labs})) == p_ for t_, p_ in gs)
+                    if taken != any(x is None for x in labs):
+                        badl.append(labs)
+                sem_l = (not badl, badl[:1])
+            except Undecidable:
+                sem_l = None
+            if sem_l is not None and not none_test or (sem_l is not None and not sem_l[0]):
+                okl, exl = sem_l
+                obs.append(Ob("E1", clause, r, fb[0], okl,
+                              "type labels fall back to the elements exactly when some label is missing%s" % ("" if okl else ": WRONG for the labels %r (%s)" % (
+                                  list(exl[0]), "a partially labelled Masses section keeps None labels, which cannot be written back" if any(x is None for x in exl[0]) else "a complete set of labels is replaced")),
+                              slot="label-fallback-test", positive="robust" if not okl else False))
+            else:
+              obs.append(Ob("E1", clause, r, fb[0], none_test,
                           "type labels fall back to the elements when `%s` is %s: %s" % (txt[:60], pol, "a test for a missing (None) label" if none_test else (
                               "a TRUTH-VALUE test - an empty label (written as `# ` and read back as '') counts as missing, and ALL labels are then replaced by guessed elements"
                               if truthy else "not recognisably a test for missing labels")),
@@ -1202,8 +1221,26 @@ def E2_cif_tags(repo, clause):
             if isinstance(n_, (ast.List, ast.Tuple)) and n_.elts and all(isinstance(x, ast.Starred) and is_self_attr(x.value) for x in n_.elts):
                 order = [x.value.attr for x in n_.elts]
                 exts = [n_]
+    if not exts:
+        # concatenation forms: np.concatenate([a, b]) / np.vstack / np.append(a, b) / a + b with the two term arrays (possibly reshaped) as operands
+        for n_ in w.own_nodes():
+            ops_ = None
+            if isinstance(n_, ast.Call) and call_name(n_) in ("concatenate", "vstack", "row_stack") and n_.args and isinstance(n_.args[0], (ast.List, ast.Tuple)):
+                ops_ = n_.args[0].elts
+            elif isinstance(n_, ast.Call) and call_name(n_) == "append" and len(n_.args) >= 2 and not (isinstance(n_.func, ast.Attribute) and isinstance(n_.func.value, ast.Name)
+                                                                                                        and n_.func.value.id not in ("np", "numpy")):
+                ops_ = n_.args[:2]
+            elif isinstance(n_, ast.BinOp) and isinstance(n_.op, ast.Add):
+                ops_ = [n_.left, n_.right]
+            if ops_ and len(ops_) == 2:
+                at_ = []
+                for o_ in ops_:
+                    a_ = [y.attr for y in ast.walk(o_) if is_self_attr(y) and y.attr in ("dihedrals", "impropers")]
+                    at_.append(a_[0] if len(set(a_)) == 1 else None)
+                if sorted(x for x in at_ if x) == ["dihedrals", "impropers"]:
+                    order, exts = at_, [n_]
     obs.append(Ob("E2", clause, w, exts[0] if exts else w.node, order == ["dihedrals", "impropers"], "torsion loop lists dihedrals then impropers (%s)" % order, slot="torsion-order",
-                  positive=bool(order)))
+                  positive="robust" if order and sorted(order) == ["dihedrals", "impropers"] else bool(order)))
     # the torsion block is written whenever there is a dihedral OR an improper
     tblock = None
     for n_ in w.own_nodes():
